@@ -694,6 +694,31 @@ def random_family(rng):
     return case
 
 
+def enum_families(tier):
+    """exhaustive small scope of the shared-Node situation: a 3-node path (network A), B = A.sub_network(s0, c0) kept, then every
+    sequence of three searches in the pattern A B A and B A B, each search being any list-form or pair-form call on nodes the
+    network holds. quick: the two-way unit path; thorough: also the one-way path and a path with a zero-weight edge."""
+    graphs = [[[0, 0, 1, 1, 0], [1, 1, 2, 1, 0]]]
+    if tier == "thorough":
+        graphs += [[[0, 0, 1, 1, 1], [1, 1, 2, 1, 1]], [[0, 0, 1, 0, 0], [1, 2, 1, 2, -1]]]
+    def calls(nodes):
+        return [["l", s, "none", 0, 0] for s in nodes] + [["d", s, t, "none", 0, 0] for s in nodes for t in nodes if s != t]
+    out = []
+    for g in graphs:
+        head = [[0, ["c"]]] + [[0, ["e"] + e] for e in g]
+        for s0 in range(3):
+            for c0 in (0, 1, "none"):
+                pre = head + [[0, ["x", s0, c0, 0]]]
+                mem = fam_members({"n": 3, "ops": pre})
+                ca, cb = calls([0, 1, 2]), calls(sorted(mem[1]["nodes"]))
+                for (k1, k2, k3, c1, c2, c3) in ((0, 1, 0, ca, cb, ca), (1, 0, 1, cb, ca, cb)):
+                    for a in c1:
+                        for b in c2:
+                            for c in c3:
+                                out.append({"kind": "fam", "n": 3, "ids": "int", "ex": 1, "ops": pre + [[k1, a], [k2, b], [k3, c]]})
+    return out
+
+
 class SessRunner:
     """one real `Network` object and what the caller holds (the Node objects handed in, a dictionary passed as
     output_dict); `call(op)` performs one op of the session forms above and returns its result record(s)"""
@@ -952,6 +977,9 @@ class P(Prop):
         s = ["all edge lists (ordered) of length 0..2 on 1..3 nodes over {src,tgt} x weights {0,1,2} x orientations {-1,0,1} (8067 graphs) x all ordered pairs x cut-offs {d-1/2, d, d+1/2 : d a distance} and none"]
         if tier == "thorough":
             s.append("all multisets of 3 edges on 1..3 nodes over the same alphabet (100482 multigraphs), edge and node insertion order shuffled")
+        s.append("families (networks sharing their Node objects): the two-way unit path 0-1-2%s as network A, B = A.sub_network(s0, c0) kept, for every s0 in {0,1,2} and c0 in {0, 1, none}; "
+                 "every sequence of three searches in the patterns A B A and B A B, each any list-form or pair-form shortest_distance on nodes the network holds (%d cases)"
+                 % (("", 6768) if tier == "quick" else (", the one-way path 0->1->2 and a path with a zero-weight and a reverse-oriented edge", len(enum_families("thorough")))))
         s.append("heapq: all lists of 0..%d tuples over priorities {0,1} x keys {0,1} (%d lists): heapify, then heappop until IndexError, the list compared after every step"
                  % ((5, 1365) if tier == "quick" else (6, 5461)))
         return s
@@ -1028,6 +1056,7 @@ class P(Prop):
                 subs.append(g)
             out.append({"kind": "multi", "subs": subs})
         # several Network objects holding the SAME Node objects (sub_network results kept and used, networks filled from one pool)
+        out += enum_families(tier)
         for _ in range(1500 if tier == "quick" else 25000):
             out.append(random_family(rng))
         # several Network objects with their own routing settings (setRoutingMethod / setAStarWeight), calls interleaved
